@@ -10,6 +10,7 @@ import (
 	"time"
 
 	"github.com/frankkopp/FrankyGo/internal/position"
+	"github.com/frankkopp/FrankyGo/internal/types"
 	"github.com/frankkopp/FrankyGo/internal/uci"
 )
 
@@ -126,6 +127,7 @@ func c12Monitor(args []string) int {
 	seed, _ := strconv.ParseUint(args[1], 10, 64)
 	rng := NewRng(seed)
 	wk := NewWalker(rng)
+	corpus := loadCorpus()
 	rep := NewReport("c12-monitor")
 	defer restoreDefaults()
 	options := []string{"Use_Hash", "Ponder", "Quiescence", "Use_QHash", "Use_SEE", "Use_PromNonQuiet", "Use_PVS", "Use_IID", "Use_Killer", "Use_HistCount",
@@ -196,6 +198,57 @@ func c12Monitor(args []string) int {
 			rep.Violate("readyok-missing", in(), "after setoption")
 			continue
 		}
+		// position commands alone (no search): start positions with special moves near, move
+		// lists that prefer castling, en passant and all four promotions
+		for j := 0; j < 40; j++ {
+			fen := corpus[rng.Intn(len(corpus))]
+			if rng.Bool() {
+				fen = mirrorFen(fen)
+			}
+			p, _ := position.NewPositionFen(fen)
+			if p == nil {
+				continue
+			}
+			var moves []string
+			for i, k := 0, 1+rng.Intn(6); i < k; i++ {
+				cp := *p
+				lm := wk.legalMoves(&cp)
+				if len(lm) == 0 {
+					break
+				}
+				var proms []types.Move
+				for _, m := range lm {
+					if m.MoveType() == types.Promotion {
+						proms = append(proms, m)
+					}
+				}
+				cp2 := *p
+				m := wk.pick(&cp2, lm)
+				if len(proms) > 0 && rng.Chance(60) {
+					m = proms[rng.Intn(len(proms))]
+				}
+				if m.MoveType() == types.Promotion {
+					rep.Stats["position_moves_promotion_"+m.PromotionType().String()]++
+				}
+				moves = append(moves, m.StringUci())
+				p.DoMove(m)
+			}
+			cmd := "position fen " + fen
+			if len(moves) > 0 {
+				cmd += " moves " + strings.Join(moves, " ")
+			}
+			do(cmd)
+			if !s.sync() {
+				rep.Violate("readyok-missing", in(), "after position")
+				break
+			}
+			rep.Stats["position_only_cases"]++
+			if got := s.u.VerifPositionFen(); got != p.StringFen() || s.u.VerifPositionKey() != uint64(p.ZobristKey()) {
+				rep.Violate("position-command-wrong-position", in(), "engine holds "+got+" expected "+p.StringFen())
+				break
+			}
+			script = script[:len(script)-1] // keep the recorded script short: this command left no trace but the position
+		}
 		goCount := 0
 		steps := 4 + rng.Intn(8)
 		for st := 0; st < steps; st++ {
@@ -227,8 +280,40 @@ func c12Monitor(args []string) int {
 						fen = f
 					}
 				}
+				if rng.Chance(50) { // corpus positions: promotions (all four kinds), en passant and castling are a move away
+					fen = corpus[rng.Intn(len(corpus))]
+					if rng.Bool() {
+						fen = mirrorFen(fen)
+					}
+				}
 				p, _ = position.NewPositionFen(fen)
-				do("position fen " + fen)
+				if p == nil {
+					fen = position.StartFen
+					p = position.NewPosition()
+				}
+				cmd := "position fen " + fen
+				if rng.Chance(70) { // a move list after a FEN; special moves preferred
+					k := 1 + rng.Intn(8)
+					for i := 0; i < k; i++ {
+						cp := *p
+						lm := wk.legalMoves(&cp)
+						if len(lm) == 0 {
+							break
+						}
+						cp2 := *p
+						m := wk.pick(&cp2, lm)
+						moves = append(moves, m.StringUci())
+						if m.MoveType() == types.Promotion {
+							rep.Stats["position_moves_promotion_"+m.PromotionType().String()]++
+						}
+						p.DoMove(m)
+					}
+					if len(moves) > 0 {
+						cmd += " moves " + strings.Join(moves, " ")
+						rep.Stats["position_fen_with_moves"]++
+					}
+				}
+				do(cmd)
 			}
 			_ = games
 			if !s.sync() {
